@@ -57,6 +57,7 @@ TABLES = {
     "GenChain": ["gen_chain.py", REPO],
     "GenCliDoc": ["gen_clidoc.py", REPO],
     "GenPanicSites": ["gen_panics.py", REPO],
+    "GenUnicase": ["gen_unicase.py", REPO],        # the toolchain's case mappings (not /repo's source): cached per rustc version
 }
 
 
